@@ -13,7 +13,10 @@ THEOREMS = ["Mistune.escape_roundtrip", "Mistune.escape_no_specials", "Mistune.e
             # (i) fenced code: the model of parse_fenced_code returns the body verbatim (closed: up to the first closing-fence line; unclosed: the rest)
             "Mistune.fenced_closed_verbatim", "Mistune.fenced_unclosed_verbatim", "Mistune.parseFencedCode_eq", "Mistune.reSub_trim", "Mistune.trim_code",
             # (iii) code spans: the model of parse_codespan returns the normalised content up to the first closing run of exactly n back-ticks
-            "Mistune.codespanEndRx_matchAt", "Mistune.codespan_closed_verbatim", "Mistune.codespan_unclosed_iff", "Mistune.parseCodespan_eq"]
+            "Mistune.codespanEndRx_matchAt", "Mistune.codespan_closed_verbatim", "Mistune.codespan_unclosed_iff", "Mistune.parseCodespan_eq",
+            # (ii) indented code: the regenerated `_expand_tab_re` / `_INDENT_CODE_TRIM` are the expected terms (kernel-decided), the text computation of parse_indent_code equals the
+            # line-level specification for every string, and lines written with any of the five four-column indents come back verbatim
+            "Mistune.expandTabRx_lookup", "Mistune.indentTrimRx_lookup", "Mistune.indentBody_eq", "Mistune.indentBody_eq_ofRuleCfg", "Mistune.indent_verbatim_iff", "Mistune.indent_verbatim", "Mistune.parseIndentCode_eq"]
 
 LINE_BITS = ["alpha", "beta gamma", "&amp; &lt; &#35;", "\\* \\` \\\\", "<b>html</b>", "*em* **st** `c`", "[l](u) ![i](s)", "    deep", "  two", "x  ", "# not heading",
              "> not quote", "- not list", "1. no", "***", "---", "===", "| a | b |", "é ß 日本", "\\", "$m$ ~~s~~", "<!-- c -->", "&", "``", "`", "~~", "~", "a\tb", "http://u.v",
@@ -365,7 +368,7 @@ def run(ctx):
                 "(1..3 backticks, inner backtick runs of other lengths, newlines, edge spaces); token raw and unescaped HTML compared with the expected text",
         "samples": [fenced_case(ctx.rng)["doc"], span_case(ctx.rng)["doc"]],
     })
-    ctx.assumptions += ["clauses (i) and (iii) are theorems about the Lean transcriptions of parse_fenced_code / parse_codespan (handler level: given the opening match; any subject, any body, any fence length); "
+    ctx.assumptions += ["clauses (i), (ii) and (iii) are theorems about the Lean transcriptions of parse_fenced_code / parse_indent_code / parse_codespan (handler level: given the opening match; any subject, any body, any fence length); "
                         "that the transcriptions behave like the Python handlers is checked by the full-tree model correspondence on this run's fenced / indented / span documents, and that the opening rule fires where the "
                         "document has a fence or a back-tick run (and containers hand the handler the de-prefixed text) is tested by the constructive oracle; clause (ii) (indented code) is tested; "
                         "clause (iv) rests on escape_roundtrip + the probed shape of the two render methods",
